@@ -1,18 +1,17 @@
-"""--inspect-mode crashes (AttributeError: 'ForwardRef' object has no attribute '__name__') on a string annotation inside a subscript.
+"""--inspect-mode crashes (AttributeError: 'types.UnionType' object has no attribute '__name__'; same for ForwardRef and ParamSpecArgs objects) when an evaluated annotation is not a class.
 
 Exit status 1 = defect present, 0 = absent, 2 = inconclusive (preconditions of the input failed).
-Mechanism keys: stubgen-crash:inspect:AttributeError@stubgenc.py:get_type_fullname"""
+Mechanism keys:
+  stubgen-crash:inspect:AttributeError@stubgenc.py:get_type_fullname
+"""
 import os
 import sys
 
 sys.path.insert(0, os.path.dirname(os.path.abspath(__file__)))
 from _c19repro import run
 
-FILES = '''from typing import Optional
-
-class Node:
-    def link(self, other: Optional["Node"] = None) -> None:
-        pass
+FILES = '''def f(x: float | int | None = None) -> None:
+    pass
 '''
 EXPECT = ['stubgen-crash:inspect:AttributeError@stubgenc.py:get_type_fullname']
 run(FILES, 'insp', EXPECT, what=__doc__.splitlines()[0])
